@@ -415,23 +415,14 @@ SHIPPED_SAMPLE = ['Europe/Istanbul', 'Asia/Famagusta', 'Europe/Dublin', 'Africa/
 SHIPPED_YEARS = (2000, 2004, 2008, 2010, 2011, 2012, 2014, 2015, 2016, 2017, 2018, 2019)
 
 
-def shipped_reference_rule(R, cfg, lib, zs):
-    """R12: "given the same zone data": the TZ lines recorded beside the shipped zonedbx entries of a sample of zones (C12-R1 holds the
-    tables to those lines) are compiled again by the interpreted compiler and given to the interpreted reference; the shipped
-    zonedbx tables themselves go to the interpreted ExtendedZoneProcessor; both are asked about the hours around every transition the
-    reference reports in the sample years, around those New Years and about the middle of every month."""
-    from . import pipeline, tables
+def shipped_reference(cfg, zs, X, sample, years_of):
+    """the interpreted reference on the recorded lines of shipped zonedbx entries: the lines of the zones in `sample` (and of the
+    policies they use) are compiled again by the interpreted compiler, ZoneSpecifier is interpreted on the result.
+    -> ({zone: {instant: (total, dst, abbrev)}}, {zone: [instants]}, {zone: fault})  - the instants are the hours around every
+    transition the reference reports in years_of(zone), around those New Years, and the middle of every month"""
+    from . import pipeline
     from .pyeval import PyEval, Raised
-    R.rule('R12', 'ExtendedZoneProcessor on the shipped zonedbx tables agrees with the reference on the recorded lines of the same entries (a sample of zones, interpreted in full)', floor=3)
-    X = tables.CxxTables(cfg, 'zonedbx')
     names = X.names()
-    thorough = cfg.tier == 'thorough'
-    sample = [z for z in SHIPPED_SAMPLE if z in names]
-    if not thorough:
-        sample = sample[:6]
-    years = SHIPPED_YEARS if thorough else SHIPPED_YEARS[3:9]
-    if len(sample) < 3:
-        raise AnalysisError('fewer than three of the sample zones are in zonedbx (%s)' % sample)
     lines, pols = [], set()
     for z in sample:
         eras = X.zone_eras(names[z])
@@ -463,13 +454,13 @@ def shipped_reference_rule(R, cfg, lib, zs):
     infos, _p = ev.call(ing, 'InlineGenerator.generate_maps', recv=obj)
     ctor = zs.fn('ZoneSpecifier.__init__')
     first = [p_ for p_ in ctor.params if p_ != 'self'][0]
-    reference, instants_of = {}, {}
-    loc = zs.fn('ZoneSpecifier.init_for_year').loc
+    reference, instants_of, faults = {}, {}, {}
     for z in sample:
         pev = PyEval(cfg, max_steps=2000000000)
         try:
             spec = pev.instantiate(zs, 'ZoneSpecifier', kwargs={first: infos[z]})
             inst = set()
+            years = years_of(z)
             for y in years:
                 pev.call(zs, 'ZoneSpecifier.init_for_year', [y], recv=spec)
                 for tr in spec.attrs.get('transitions') or []:
@@ -487,10 +478,47 @@ def shipped_reference_rule(R, cfg, lib, zs):
                 r = pev.call(zs, 'ZoneSpecifier.get_timezone_info_for_seconds', [e], recv=spec)
                 got[e] = (r.total_offset, r.dst_offset, r.abbrev)
         except Raised as r_:
-            R.instance('R12', 'zonedbx~reference:%s' % z, loc)
-            R.violation('R12', 'zonedbx~reference:%s' % z, loc, '%s: the reference raises %s on the recorded lines' % (z, r_.what))
+            faults[z] = r_.what
             continue
         reference[z], instants_of[z] = got, instants
+    return reference, instants_of, faults
+
+
+def shipped_reference_rule(R, cfg, lib, zs):
+    """R12: "given the same zone data": the TZ lines recorded beside the shipped zonedbx entries of a sample of zones (C12-R1 holds the
+    tables to those lines) are compiled again by the interpreted compiler and given to the interpreted reference; the shipped
+    zonedbx tables themselves go to the interpreted ExtendedZoneProcessor; both are asked about the hours around every transition the
+    reference reports in the sample years, around those New Years and about the middle of every month."""
+    from . import pipeline, tables
+    from .pyeval import PyEval, Raised
+    R.rule('R12', 'ExtendedZoneProcessor on the shipped zonedbx tables agrees with the reference on the recorded lines of the same entries (quick tier: a sample of zones; thorough tier: every zone; interpreted in full)', floor=3)
+    X = tables.CxxTables(cfg, 'zonedbx')
+    names = X.names()
+    thorough = cfg.tier == 'thorough'
+    sample = [z for z in SHIPPED_SAMPLE if z in names]
+    if not thorough:
+        sample = sample[:6]
+    else:
+        # thorough tier: every zone of zonedbx - the sample over twelve years, the rest over five
+        sample = sample + sorted(z for z in names if z not in SHIPPED_SAMPLE)
+    import os
+    if os.environ.get('ACV_R12_ZONES'):
+        # exploration outside the registered tiers: 'all', or a comma-separated list of zone names
+        want_ = os.environ['ACV_R12_ZONES']
+        sample = sorted(names) if want_ == 'all' else [z for z in want_.split(',') if z in names]
+    years_quick = SHIPPED_YEARS[3:9]
+
+    def years_of(z):
+        if not thorough:
+            return years_quick
+        return SHIPPED_YEARS if z in SHIPPED_SAMPLE else (2001, 2007, 2011, 2015, 2019)
+    if len(sample) < 3:
+        raise AnalysisError('fewer than three of the sample zones are in zonedbx (%s)' % sample)
+    reference, instants_of, faults = shipped_reference(cfg, zs, X, sample, years_of)
+    loc = zs.fn('ZoneSpecifier.init_for_year').loc
+    for z, what in sorted(faults.items()):
+        R.instance('R12', 'zonedbx~reference:%s' % z, loc)
+        R.violation('R12', 'zonedbx~reference:%s' % z, loc, '%s: the reference raises %s on the recorded lines' % (z, what))
     answers, cloc = processor_answers(lib, 'extended', X, sorted(reference), instants_of)
     for z in sorted(reference):
         c = 'zonedbx~reference:%s' % z
@@ -817,4 +845,39 @@ def zoned_roundtrip_rule(R, cfg, lib, rid='R6'):
             R.instance(rid, c, f_for.loc, '%d instants' % n)
             if bad:
                 R.violation(rid, c, f_for.loc, bad)
+
+
+def shipped_pair_rule(R, cfg, lib, rid='H'):
+    """C02, second sentence, on every zone both shipped databases hold (thorough tier; the quick tier takes every eighth zone):
+    BasicZoneProcessor on the zonedb tables and ExtendedZoneProcessor on the zonedbx tables, interpreted in full, at the hours around
+    every transition the interpreted reference reports for the zone in five years, around those New Years and in the middle of every
+    month; the reference's own answers are the third column of the report."""
+    from . import tables, py
+    R.rule(rid, 'BasicZoneProcessor (zonedb) and ExtendedZoneProcessor (zonedbx), interpreted in full, give identical answers around every transition of the zones both databases hold', floor=20)
+    zs = py.load(cfg, 'tools/zonedb/zone_specifier.py')
+    B = tables.CxxTables(cfg, 'zonedb')
+    X = tables.CxxTables(cfg, 'zonedbx')
+    bnames, xnames = B.names(), X.names()
+    shared = sorted(z for z in bnames if z in xnames)
+    if cfg.tier != 'thorough':
+        shared = shared[::8]
+    years = (2001, 2007, 2011, 2015, 2019) if cfg.tier == 'thorough' else (2007, 2015)
+    reference, instants_of, faults = shipped_reference(cfg, zs, X, shared, lambda z: years)
+    zones = sorted(reference)
+    bas, loc_b = processor_answers(lib, 'basic', B, zones, instants_of)
+    ext, _l = processor_answers(lib, 'extended', X, zones, instants_of)
+    for z in shared:
+        c = 'zonedb~zonedbx:%s' % z
+        R.instance(rid, c, loc_b, '%d instants' % len(instants_of.get(z, ())))
+        if z in faults:
+            R.violation(rid, c, loc_b, '%s: the reference raises %s on the recorded lines' % (z, faults[z]))
+            continue
+        if isinstance(bas[z], str) or isinstance(ext[z], str):
+            R.violation(rid, c, loc_b, '%s: %s' % (z, bas[z] if isinstance(bas[z], str) else 'extended: ' + ext[z]))
+            continue
+        diffs = [e for e in instants_of[z] if bas[z][e] != ext[z][e]]
+        if diffs:
+            e = diffs[0]
+            R.violation(rid, c, loc_b, '%s at %s UTC: the basic processor answers (total offset, DST offset, abbreviation) = %s, the extended processor %s (the reference: %s); %d of %d instants differ'
+                        % (z, EPOCH + _dt.timedelta(seconds=e), bas[z][e], ext[z][e], reference[z].get(e), len(diffs), len(instants_of[z])))
 
